@@ -1,21 +1,37 @@
-(* C31 — The manifest compiler never crashes (partial). Property theorems only. *)
-From Coq Require Import List NArith Bool.
+(* C31 — The manifest compiler never crashes (partial). Property theorems only.
+   Model/C31_Lexer.v: the whole lexer (whitespace/comments, numbers with type suffix and parse_int,
+   strings, identifiers, punctuation, the tokenize loop with fuel) over lists of code points. A Rust
+   &str is a list of Unicode scalar values; the theorems hold for every list of numbers, so in
+   particular for every valid UTF-8 text with any mix of LF / CRLF / CR and non-ASCII characters. *)
+From Coq Require Import List NArith ZArith Bool.
 Import ListNotations.
-Require Import RV.Model.C30_Text RV.Proof.C31_Text.
+Require Import RV.Model.C30_Text RV.Model.C31_Lexer RV.Proof.C31_Text RV.Proof.C31_Lexer.
 Open Scope N_scope.
 
-(* the string lexer (the part of the lexer with unchecked u32 arithmetic and nested escape states)
-   reaches no panic state on any text over the escape-relevant alphabet (quote, backslash, u, d, 8, 0, c, x) up to
-   length 7 (exhaustive: 2.4 million texts).  PARTIAL: bounded; the remaining lexer states, the parser,
-   the generator and the diagnostics renderer are covered by the catch_unwind oracle only. *)
-Theorem C31_lex_string_total_partial : forall l, over_sigma l -> (length l <= 7)%nat ->
+(* the lexer is total: on every input it returns a token list or an error — the model's panic states
+   (checked u32 arithmetic of the surrogate computation, the unreachable state of read_utf16_unit) are
+   unreachable and the tokenize loop terminates (length+1 iterations always suffice, because every
+   token consumes at least one character) *)
+Theorem C31_lex_total : forall text, tokenize text <> LPanic /\ tokenize text <> LOutOfFuel.
+Proof. exact lex_total. Qed.
+Theorem C31_lex_string_total : forall l pos start acc, lex_string l pos start acc <> SPanic.
+Proof. exact lex_string_no_panic. Qed.
+(* determinism ("the same answer every time") is immediate for the model: tokenize is a function *)
+
+(* kept from the first round: bounded exhaustive version, independent of the structural proof *)
+Theorem C31_lex_string_total_sigma7 : forall l, over_sigma l -> (length l <= 7)%nat ->
   lex_string l 1 0 [] <> SPanic.
 Proof. exact lex_string_no_panic_sigma7. Qed.
 
 Example C31_nonvacuous :
-  lex_string_literal [34; 92; 117; 100; 56; 48; 48; 92; 117; 48; 48; 52; 49; 34] = SOk [9281] 14 /\
-  lex_string_literal [34; 92; 117; 100; 56; 48; 48; 120] = SErr (LMissingSurrogate 55296) 2 7 /\
-  lex_string_literal [34; 92; 117; 100; 99; 48; 48; 92; 117; 100; 99; 48; 48; 34] = SErr (LInvalidUnicode 1114112) 2 13.
+  tokenize [35; 99; 13; 10; 45; 49; 50; 56; 105; 56; 32; 34; 233; 92; 110; 34; 61; 62; 116; 114; 117; 101; 59]
+    = LOk [(TInt true 8 (Z.opp 128), 4, 10); (TString [233; 10], 11, 16); (TFatArrow, 16, 18); (TBool true, 18, 22); (TSemi, 22, 23)] /\
+  tokenize [50; 53; 54; 117; 56] = LErr LInvalidInteger 0 5 /\
+  tokenize [49; 105; 49; 50; 55] = LErr LInvalidIntegerType 1 5 /\
+  tokenize [34; 92; 117; 100; 56; 48; 48; 120] = LErr (LMissingSurrogate 55296) 2 7 /\
+  tokenize [233] = LErr (LUnexpectedChar 233 XDLQP) 0 1.
 Proof. repeat split; vm_compute; reflexivity. Qed.
 
-Print Assumptions C31_lex_string_total_partial.
+Print Assumptions C31_lex_total.
+Print Assumptions C31_lex_string_total.
+Print Assumptions C31_lex_string_total_sigma7.
